@@ -253,6 +253,16 @@ func TestC15(t *testing.T) {
 			tab := noInf(hx.GenTable(t, hx.TableOpt{MinCols: 1, MaxCols: 4, Rows: rapid.OneOf(rapid.IntRange(1, 15), rapid.IntRange(1, 15), rapid.IntRange(1, 15), rapid.IntRange(1, 15), rapid.IntRange(95, 210))}))
 			// (now and then a few hundred rows: a writer may send larger frames in another way, e.g. in batches)
 			d := hx.GenDerived(t, tab, 2)
+			exact := 0
+			if rapid.IntRange(0, 5).Draw(t, "exactrows") == 0 {
+				// a frame of exactly 2^k rows or one next to it (a writer that sends batches of 2^k rows has no remainder
+				// then, or a remainder of one row): a narrow table filled from one seed, in sorted order
+				exact = rapid.SampledFrom([]int{63, 64, 65, 127, 128, 129, 255, 256, 257, 512, 513, 1024}).Draw(t, "nexact")
+				sm := hx.SplitMix(rapid.Uint64().Draw(t, "exactseed"))
+				big := hx.Table{Cols: []hx.Col{hx.FillCol(&sm, "i1", hx.KInt, exact, 50, nil), hx.FillCol(&sm, "s1", hx.KString, exact, 9, nil)}}
+				d = hx.GenDerived(t, big, 0)
+				d.QF = d.QF.Sort(qframe.Order{Column: "i1"})
+			}
 			n := d.QF.Len()
 			// any dialect configuration: the write path may differ with the options (placeholder style, presets)
 			dopts := rapid.SampledFrom([]string{"plain", "incrementing", "postgres", "mysql", "sqlite", "escape"}).Draw(t, "sqldialect")
@@ -275,6 +285,9 @@ func TestC15(t *testing.T) {
 			desc := func() string { return "ToSQL (" + dopts + ") under driver faults\n" + d.String() }
 			for mode := 0; mode < 2; mode++ {
 				for k := 0; k < n; k++ {
+					if exact > 0 && !(k < 2 || k >= n-2 || k == n/2 || k%64 < 2 || k%64 == 63) {
+						continue // large frames: the statements around every multiple of 64, the first and the last ones
+					}
 					m, db := faults.New()
 					if mode == 0 {
 						m.FailExecAt = k
